@@ -87,6 +87,23 @@ def emits(b):
     return out
 
 
+def closure_emits(prog, b):
+    """emits inside closures passed to a call of b: (block of that call, kind, call, name of the taking call, receiver description)"""
+    out = []
+    for c in b.calls:
+        for a in c.args[1:]:
+            for o in b.origins(a):
+                if o[0] == "agg":
+                    r = b.blocks[o[1]]["s"][o[2]]["r"]
+                    if r.get("ak") == "closure":
+                        cb = prog.body(r["def"])
+                        if cb is None:
+                            continue
+                        for (e, k, ec) in emits(cb):
+                            out.append((c.bb, k, ec, c.name, desc(b, c.args[0])))
+    return out
+
+
 def on_all_paths(b, a, x):
     """every entry->exit path through block x also passes through block a"""
     return b.dominates(a, x) or b.postdominates(a, x)
@@ -104,6 +121,14 @@ def r1_r2(rep, prog, tab):
             nh += 1
             ves = view_events(b, field)
             ems = emits(b)
+            cems = closure_emits(prog, b)
+            for (cbb, k, ec, taker, recv) in cems:
+                # an emit inside `<removal result>.map(|_| event)`: runs exactly when something was removed
+                seen_k.add(k)
+                ne += 1
+                want = ("add",) if k == "Created" else ("remove", "cond-remove")
+                ws = [i for (i, pol, how, line) in ves if pol in want]
+                rep.check(any(on_all_paths(b, w, cbb) for w in ws), "C19-R1", b.def_, "emit-has-view-write:%s" % k, "a %s event is emitted (in a closure passed to %s) on a path without the matching write of the entry's view (%s)" % (k, taker, field), line=ec.line, detail={})
             # (e) fail closed
             for (i, pol, how, line) in ves:
                 rep.check(pol != "unknown", "C19-R1", b.def_, "view-mutation-recognised:%s" % how, "unrecognised mutation of the view field %s in an event handler (%s): cannot be paired with an event" % (field, how), line=line, detail={})
@@ -138,6 +163,10 @@ def r1_r2(rep, prog, tab):
                 elif pol == "cond-remove":
                     es = set(e for (e, k, c) in ems if k == "Destroyed")
                     some = b.edges_matching([r"^Some=discr\(self\.%s\.%s\(" % (re.escape(field), how), r"^True=Option::is_some\(self\.%s\.%s\(" % (re.escape(field), how)])
+                    mapped = [x for x in cems if x[1] == "Destroyed" and x[3] in ("map", "and_then") and any(("self.%s.%s(" % (field, how)) in y for y in x[4])]
+                    if mapped and not some:
+                        rep.ok("C19-R1", "%s:view-remove-mapped:%s" % (b.def_, how), None)
+                        continue
                     rep.check(bool(some), "C19-R1", b.def_, "view-remove-tested:%s" % how, "the outcome of the conditional removal %s(..) on the view must decide whether a Destroyed event is emitted (no Some / is_some edge on its result found)" % how, line=line, detail={})
                     for (u, v) in sorted(some):
                         leak = set(b.exits()) & b.reachable(v, without_nodes=es)
